@@ -151,6 +151,57 @@ def run(ctx):
             n += 1
             ctx.fail(R, b, 'suppress-iff-fraction>threshold', 'insertion into the excluded set is not guarded by a '
                      'comparison with nms_threshold', c.ln)
+    # chain form of the suppression pass: `let s = v[i + 1..].iter().filter(|ob| !excluded.contains(&ob.index))
+    # .filter(|ob| share(cb, ob) > threshold).map(|ob| ob.index).collect(); excluded.extend(s)` - the same clauses read
+    # from the closures of the chain (the element of the chain is the inner, lower-ranked box)
+    chain_form = []
+    if not ins:
+        from lib import subst_upvars as _su
+        for c in b.find_calls('extend'):
+            if not c.args or c.args[0].get('k') not in ('copy', 'move') or 'HashSet' not in str(b.locals[c.args[0]['pl']['l']]):
+                continue
+            src = eb.arg(c, 1)
+            spine = []
+            x = src
+            while x is not None and x.kind == 'call' and len(spine) < 30:
+                spine.append(x)
+                x = x.args[0] if x.args else None
+            base_inner = any(y.kind == 'call' and y.name.rsplit('::', 1)[-1] == 'index' and 'RangeFrom' in repr(y) for y in spine)
+            if not base_inner:
+                continue
+            info = {'call': c, 'gate': None, 'frac': None, 'contains': [], 'ids': []}
+            for y in spine:
+                leaf = y.name.rsplit('::', 1)[-1]
+                if leaf == 'index' and 'RangeFrom' in repr(y.args[1] if len(y.args) > 1 else ''):
+                    break       # below the suffix: the construction of the candidate list (ranked elsewhere)
+                if leaf not in ('filter', 'map', 'filter_map') or not hasattr(y.extra, 'args'):
+                    continue
+                for cb_ in closure_args_of_call(F, b, y.extra):
+                    ctx.read(cb_)
+                    r_ = _su(F, cb_, ExprBuilder(cb_).place(0, ()))
+                    if leaf == 'map':
+                        info['ids'].append(r_)
+                        continue
+                    neg = False
+                    t_ = r_
+                    while t_.kind == 'un' and t_.name == 'Not':
+                        t_ = t_.args[0]
+                        neg = not neg
+                    if t_.kind == 'call' and t_.name.rsplit('::', 1)[-1] == 'contains':
+                        info['contains'].append((neg, t_))
+                        continue
+                    cm_ = as_cmp(r_, True)
+                    o_ = orient(cm_, lambda e: not (e.strip().kind == 'place' and e.strip().root == ('param', 2))) if cm_ else None
+                    if o_ and o_[2].strip().kind == 'place' and o_[2].strip().root == ('param', 2):
+                        info['gate'] = o_[0]
+                        info['frac'] = o_[1]
+            if info['gate'] is not None:
+                chain_form.append(info)
+        for info in chain_form:
+            n += 1
+            ctx.check(info['gate'] == 'Gt', R, b, 'suppress-iff-fraction>threshold', 'chain form: fraction %s nms_threshold' % info['gate'],
+                      'a box is suppressed when `covered fraction %s nms_threshold` (expected strictly greater)' % info['gate'],
+                      info['call'].ln)
     # score / validity filter: the closure of the first `filter` over detections
     from lib import necessary_keep_facts
     flt = [c for c in b.find_calls('std::iter::Iterator::filter', 'std::iter::Iterator::filter_map')
@@ -243,6 +294,39 @@ def run(ctx):
         ctx.check(ok, R, b, 'fraction=intersection(outer,inner)/area(inner)', detail[:200],
                   'the covered fraction is %s: expected intersection(higher-ranked, lower-ranked) divided by the area '
                   'of the lower-ranked (inner-loop) box' % detail[:300])
+    for info in chain_form:
+        frac = info['frac']
+        divs = [x for x in frac.walk() if x.kind == 'bin' and x.name == 'Div']
+        n += 1
+        okc = False
+        detail = repr(frac)[:200]
+        if divs:
+            num, den = divs[0].args
+            inter = num.calls('intersection')
+            area = den.calls('area')
+            if inter and area and num.strip() is inter[0] and den.strip() is area[0]:
+                o_, i_ = inter[0].args[0], inter[0].args[1]
+                a_ = area[0].args[0]
+
+                def is_elem(e_):
+                    # the chain element: a parameter of the closure the comparison sits in (not an upvar, not the outer box)
+                    return any(p_.root[0] == 'param' and p_.root[1] >= 2 for p_ in e_.places()) and not e_.has_call('enumerate')
+                okc = elem_role(o_) == 'outer' and is_elem(i_) and repr(a_.strip()) == repr(i_.strip())
+        ctx.check(okc, R, b, 'fraction=intersection(outer,inner)/area(inner)', detail,
+                  'the covered fraction of the chain form is %s: expected intersection(higher-ranked, lower-ranked) divided by '
+                  'the area of the lower-ranked (chain element) box, nothing else' % detail)
+        for neg_, t_ in info['contains']:
+            a = t_.args[-1]
+            n += 1
+            ctx.check(neg_ and a.has_field('index'), R, b, 'contains(candidate-id)', repr(a.strip())[-60:],
+                      'the chain keeps an element under %scontains(%r): expected the boxes whose candidate id (`.index`) is NOT '
+                      'excluded yet' % ('!' if neg_ else '', a.strip()))
+        for r_ in info['ids']:
+            n += 2
+            ctx.check(r_.has_field('index'), R, b, 'insert(candidate-id)', repr(r_.strip())[-60:],
+                      'the excluded set is extended with %r, which is not a candidate id (`.index`)' % r_.strip())
+            ctx.check(any(p_.root[0] == 'param' and p_.root[1] >= 2 for p_ in r_.places()) and not r_.has_call('enumerate'), R, b,
+                      'insert(inner-id)', '', 'the id recorded as excluded is not the id of the chain element (the lower-ranked box)')
     # suffix: slice index RangeFrom{Add(outer position, 1)}
     idx = [c for c in b.find_calls('index') if 'RangeFrom' in ' '.join(c.ga) or 'RangeFrom' in b.locals[c.args[1]['pl']['l']]]
     # index-loop form: `for j in i + 1..n { ob = &v[j] }` — the inner range starts right after the outer position
